@@ -30,6 +30,26 @@ def quotes_in(facts, node):
     return out
 
 
+def quotes_reach(facts, c, h, node, depth=2):
+    """quote! templates evaluated by `node`: those written in it, and those in the bodies of the crate's own
+    token-producing helpers it calls (so that extracting a template into a helper does not hide it).
+    -> [(text, macro node, template, owner fn)]"""
+    out = [(q[0], q[1], q[2], h) for q in quotes_in(facts, node)]
+    if depth <= 0:
+        return out
+    seen = set()
+    for x, _ in walk(node):
+        if x.get("k") in ("call", "mcall") and x.get("fn") and x["fn"] not in seen:
+            seen.add(x["fn"])
+            f = c.fns.get(x["fn"])
+            if not f or f.get("derived") or "TokenStream" not in f.get("output", ""):
+                continue
+            for hh in c.user_fns():
+                if hh["fn"] == x["fn"] and hh is not h:
+                    out.extend(quotes_reach(facts, c, hh, hh["body"], depth - 1))
+    return out
+
+
 def run(facts, rep, tier):
     c = facts.impl
     gsa = [h for h in c.user_fns() if h["fn"].endswith("generate_serde_attr")]
@@ -46,7 +66,8 @@ def run(facts, rep, tier):
         n_skip = 0
         for arm in m[0]["arms"]:
             p = psrc(arm["pat"])
-            qs = [q[0] for q in quotes_in(facts, arm["body"])]
+            reach = quotes_reach(facts, c, h, arm["body"])
+            qs = [q[0] for q in reach]
             pushed = [q for q in qs]
             skips = [q for q in pushed if q.startswith("skip_serializing_if=")]
             var = re.search(r"TypeEntryDetails::(\w+)", p)
@@ -57,14 +78,15 @@ def run(facts, rep, tier):
                 if cell in PRED:
                     rep.ob("C03.D1", "predicate-matches-type:%s" % cell, skips == ["skip_serializing_if=" + PRED[cell]], "%s" % skips)
                 elif cell == "Map":
-                    cnh = Canon(c, h, 4)
-                    hole_skips = [q for q in quotes_in(facts, arm["body"]) if re.fullmatch(r"skip_serializing_if=#\w+", q[0])]
+                    hole_skips = [q for q in reach if re.fullmatch(r"skip_serializing_if=#\w+", q[0])]
                     ok = 'skip_serializing_if="::serde_json::Map::is_empty"' in skips and len(hole_skips) == 1
                     okf = False
                     if hole_skips:
+                        owner = hole_skips[0][3]
+                        cnh = Canon(c, owner, 4)
                         hole = [a for a in hole_skips[0][1].get("args", []) if a.get("hole")]
                         pr = cnh.r(hole[0]) if hole else ""
-                        fm = [y for y, _ in walk(arm["body"]) if y.get("k") == "macro" and y["name"] == "format"]
+                        fm = [y for y, _ in walk(owner["body"]) if y.get("k") == "macro" and y["name"] == "format"]
                         tf = facts.template_at(fm[0]["sp"]) if fm else None
                         okf = pr == "format!($&TypeSpace.settings.map_type)" and bool(tf) and tf["text"].startswith('"{}::is_empty"')
                     rep.ob("C03.D1", "predicate-matches-type:Map", ok and okf, "Map: `<configured map>::is_empty`, or serde_json::Map::is_empty for String->JsonValue" if ok and okf else "Map predicate is %s" % skips, arm.get("sp"))
